@@ -24,6 +24,7 @@ type c11pos struct {
 	valid  func(s string) bool       // reference recogniser
 	slot   func(c *cfg.Config, i int, s string) (key string) // puts candidate s into the config, returns the key diagnostics may use
 	single bool                      // one candidate per configuration (meta scalars)
+	size   int                       // candidates per configuration (0: default 400)
 }
 
 func svcSlot(i int) string { return fmt.Sprintf("k%04d", i) }
@@ -62,6 +63,11 @@ func c11Positions() []c11pos {
 		}},
 		{name: "go-function", extra: "(", valid: ref.IsGoFunc, slot: func(c *cfg.Config, i int, s string) string {
 			c.Meta.Functions = append(c.Meta.Functions, cfg.KS{K: svcSlot(i), V: s})
+			return s
+		}},
+		{name: "go-function-of-builtin-name", extra: "(", size: 3, valid: ref.IsGoFunc, slot: func(c *cfg.Config, i int, s string) string {
+			// re-registering env / envInt / todo is allowed; the Go function given for them is checked like any other
+			c.Meta.Functions = append(c.Meta.Functions, cfg.KS{K: []string{"env", "envInt", "todo"}[i%3], V: s})
 			return s
 		}},
 		{name: "meta-pkg", extra: "1", single: true, valid: ref.IsGoToken, slot: func(c *cfg.Config, i int, s string) string { c.Meta.Pkg = cfg.P(s); return s }},
@@ -179,6 +185,9 @@ func checkC11(c *Ctx) error {
 			}
 		}
 		size := 400
+		if p.size > 0 {
+			size = p.size
+		}
 		if p.single {
 			size = 1
 		}
@@ -452,6 +461,7 @@ var c11Seeds = map[string][]string{
 	"import-path":         {"github.com/a-b/c_d.v2", `"a/b/c"`, `"."`},
 	"function-name":       {"envInt", "my_Fn1"},
 	"go-function":         {"a/b.Fn", `"a/b".Fn`, `".".Fn`, "Fn", "os.Getenv"},
+	"go-function-of-builtin-name": {`"a/b".Fn`, "Fn"},
 	"getter":              {"GetService1", "Get_it"},
 	"service-type":        {`*"net/http".Server`, "*a/b.T", "T", `".".T`},
 	"service-value":       {`&"a/b".Var.Field`, "a/b.S{}", `&"a/b".S{}`, "*a.V", `".".V.F`, "V"},
